@@ -70,11 +70,53 @@ def infeasible(facts):
     return any((not c) and k > 0 for c, k in ineqs)
 
 
+def find_cursors(body):
+    """slice-reference locals that are advanced in place: `let payload = &mut &data[1..]; decode(payload)`.
+    Returns (set of cursor locals, list of blocks with calls that may advance them)."""
+    cursors = set()
+    holders = {}
+    for b in body.blocks:
+        if b.cleanup:
+            continue
+        for s in b.stmts:
+            if s.k == "a" and s.rv.k == "ref" and s.rv.j["bk"] == "mut" and s.rv.place.is_local() and s.lhs.is_local():
+                ty = body.local_ty(s.rv.place.local)
+                if re.match(r"^&(?:'\w+ )?\[u8\]$", ty):
+                    holders.setdefault(s.rv.place.local, set()).add(s.lhs.local)
+    calls = {}
+    for c, hs in holders.items():
+        # follow moves / reborrows of the &mut &[u8]
+        al = set(hs)
+        changed = True
+        while changed:
+            changed = False
+            for b in body.blocks:
+                for s in b.stmts:
+                    if s.k == "a" and s.lhs.is_local() and s.lhs.local not in al:
+                        src = None
+                        if s.rv.k in ("use", "cast") and s.rv.ops and s.rv.ops[0].place is not None:
+                            src = s.rv.ops[0].place
+                        elif s.rv.k == "ref" and s.rv.place is not None:
+                            src = s.rv.place
+                        if src is not None and src.local in al and all(p == "*" for p in src.proj) and body.local_ty(s.lhs.local).startswith("&mut &"):
+                            al.add(s.lhs.local)
+                            changed = True
+        mine = []
+        for bi, t in body.calls():
+            if any(a.place is not None and a.place.local in al and a.place.is_local() for a in t.args):
+                mine.append(bi)
+        if mine:
+            cursors.add(c)
+            calls[c] = sorted(set(mine))
+    return cursors, calls
+
+
 class Aff:
     def __init__(self, body, facts_db, prov=None):
         self.body = body
         self.db = facts_db
-        self.prov = prov or Prov(body, facts_db)
+        self.cursors, self.cursor_calls = find_cursors(body)
+        self.prov = prov or Prov(body, facts_db, cursors=self.cursors)
         self.guards = Guards(body, self.prov, facts_db)
         self.atom_ranges = {}
         self.unknown = []
@@ -108,15 +150,21 @@ class Aff:
             m = ARRAY_TY.match(ty)
             if m:
                 return ({}, int(m.group(1)))
-            a = ("len", e[2])
+            a = "len:" + e[2]
             self.atom_ranges[a] = (0, 2 ** 63)
             return ({a: 1}, 0)
         if k == "upvar":
-            a = ("len", e[1])
+            a = "len:" + e[1]
+            self.atom_ranges[a] = (0, 2 ** 63)
+            return ({a: 1}, 0)
+        if k == "cursor":
+            a = "len:cursor(%s)" % e[2]
             self.atom_ranges[a] = (0, 2 ** 63)
             return ({a: 1}, 0)
         if k == "agg" and e[1] == "array":
             return ({}, len(e[2]))
+        if k == "agg" and e[1].startswith("repeat:"):
+            return ({}, int(e[1].split(":")[1]))
         if k == "cast":
             return self.length(e[1], depth + 1)
         if k == "call":
@@ -135,11 +183,26 @@ class Aff:
             if ix == [0] and e[2]:
                 return self.length(e[2][0], depth + 1)
             # an opaque call producing a buffer: its length is an atom of its own
-            a = ("len", fmt_short(e))
+            a = "len:" + fmt_short(e)
             self.atom_ranges[a] = (0, 2 ** 63)
             return ({a: 1}, 0)
+        if k == "field":
+            ns = set()
+            for adt in self.db.adts.values():
+                for v in adt["variants"]:
+                    for fd in v["fields"]:
+                        if fd["name"] == e[2]:
+                            m = ARRAY_TY.match(fd["ty"])
+                            if m:
+                                ns.add(int(m.group(1)))
+                                continue
+                            m = re.match(r"^\[u8; ([A-Z_][A-Z0-9_]*)\]$", fd["ty"])
+                            vals = [int(c["v"]) for pth, c in self.db.consts.items() if m and pth.endswith("::" + m.group(1)) and c.get("v") is not None]
+                            ns.add(vals[0] if len(set(vals)) == 1 else None)
+            if len(ns) == 1 and None not in ns:
+                return ({}, ns.pop())
         if k in ("field", "as", "index"):
-            a = ("len", fmt_short(e))
+            a = "len:" + fmt_short(e)
             self.atom_ranges[a] = (0, 2 ** 63)
             return ({a: 1}, 0)
         return None
@@ -180,21 +243,26 @@ class Aff:
                     return self.length(x[2][0])
                 if re.search(r"num::from_be_bytes$|num::from_le_bytes$", n):
                     ty = self.call_type(x)
-                    a = ("val", fmt_short(x))
+                    a = "val:" + fmt_short(x)
                     if ty in INT_RANGES:
                         self.atom_ranges[a] = INT_RANGES[ty]
                     return a
             if x[0] == "un" and x[1] == "PtrMetadata":
                 return self.length(x[2])
             if x[0] == "index":
-                a = ("byte", fmt_short(x))
+                name = fmt_short(x)
+                if len(x) > 2:
+                    iv_ = linear(x[2])
+                    if iv_ is not None and not iv_[0]:
+                        name = "%s[%d]" % (fmt_short(x[1]), iv_[1])
+                a = "byte:" + name
                 self.atom_ranges[a] = (0, 255)
                 return a
             if x[0] == "cast":
                 inner = self.value(x[1])
                 return inner
             if x[0] in ("param", "upvar"):
-                a = ("val", x[2] if x[0] == "param" else x[1])
+                a = "val:" + (x[2] if x[0] == "param" else x[1])
                 ty = self.body.local_ty(x[1]) if x[0] == "param" else None
                 if ty in INT_RANGES:
                     self.atom_ranges[a] = INT_RANGES[ty]
@@ -206,10 +274,10 @@ class Aff:
         # atoms that are raw expressions: give them a name
         out = {}
         for a, c in lf[0].items():
-            if isinstance(a, tuple) and a and a[0] in ("len", "val", "byte"):
+            if isinstance(a, str):
                 out[a] = out.get(a, 0) + c
             else:
-                b = ("val", fmt_short(a))
+                b = "val:" + fmt_short(a)
                 out[b] = out.get(b, 0) + c
         return (out, lf[1])
 
@@ -230,6 +298,22 @@ class Aff:
                     continue
                 # edge (bi -> s) dominates the site
                 f = self.fact_of_edge(bi, t, e, s)
+                # a fact about an in-place cursor is stale if the cursor may be advanced between the test and the site
+                named = set(m_.group(1) for ff in f for a in ff.c for m_ in re.finditer(r"cursor\((\w+)\)", str(a)))
+                if f and named:
+                    r1 = body.reachable(s, removed_blocks=[bi])
+                    stale = False
+                    adv = []
+                    for c_, blocks in self.cursor_calls.items():
+                        if (body.local_name(c_) or ("_%d" % c_)) in named:
+                            adv += blocks
+                    for m in adv:
+                        if m in r1 and m != site_block:
+                            tgt = body.blocks[m].term.target
+                            if tgt is not None and (site_block in body.reachable(tgt, removed_blocks=[bi]) or tgt == site_block):
+                                stale = True
+                    if stale:
+                        continue
                 out += f
         return out
 
@@ -237,6 +321,13 @@ class Aff:
         c = comparison(e)
         facts = []
         if c is None:
+            # a match on an integer value: the edge taken fixes the value
+            dty = self.body.tys[t.j["dty"]] if "dty" in t.j else ""
+            if dty in INT_RANGES and e[0] != "discr":
+                v = self.value(e)
+                hit = [val for val, tb in t.vals if tb == succ]
+                if v is not None and len(hit) == 1 and succ != t.otherwise:
+                    facts.append(Fact(v[0], v[1] - hit[0], eq=True, why="%s == %d @%s" % (fmt_short(e)[:60], hit[0], t.line)))
             return facts
         op, a, b = c
         va, vb = self.value(a), self.value(b)
@@ -262,6 +353,44 @@ class Aff:
         elif holds == "==":
             facts.append(Fact(d, k, eq=True, why=why))
         return facts
+
+    def cursor_init_length(self, name):
+        """length of the slice a cursor was created from (`&mut &payload[..n]` -> n)"""
+        for c_ in self.cursors:
+            if (self.body.local_name(c_) or ("_%d" % c_)) != name:
+                continue
+            for lhs, kind, payload, blk, _l in self.prov.defs.get(c_, ()):
+                if kind == "rv" and lhs.is_local():
+                    return self.length(self.prov.rvalue(payload, blk))
+                if kind == "call" and lhs.is_local():
+                    return self.length(self.prov.call(payload, blk))
+        return None
+
+    def size_axioms(self, obligations_text=""):
+        """library fact (DESIGN.md sec. 6): a record decoded from a slice s reports size() <= len(s)"""
+        out = []
+        seen = set()
+        for blk in self.body.blocks:
+            if blk.cleanup or blk.idx not in self.body.live_blocks():
+                continue
+            t = blk.term
+            if t.k == "call" and re.search(r"enr::Enr::size$", short(t.callee() or "")):
+                e = self.prov.call(t, blk.idx)
+                v = self.value(e)
+                src = [x for x in walk(e[2][0]) if x[0] == "call" and re.search(r"Decodable>::decode$", short(x[1]))]
+                if v is None or not src:
+                    continue
+                arg = src[0][2][0]
+                ln = None
+                if arg[0] == "cursor":
+                    ln = self.cursor_init_length(arg[2])
+                else:
+                    ln = self.length(arg)
+                if ln is not None and fmt_short(e) not in seen:
+                    seen.add(fmt_short(e))
+                    d, k = _lin_add(v, ln, -1)
+                    out.append(Fact(d, k, why="axiom: Enr::size() <= length of the slice it was decoded from"))
+        return out
 
     def range_facts(self):
         out = []
